@@ -27,7 +27,7 @@ import re
 import subprocess
 import zlib
 
-from .. import cppref, fs
+from .. import build, cppref, fs
 
 LEVEL = 'model_checking'
 
@@ -596,7 +596,8 @@ DEFINITION_CASES = [
     '#define f(a) #a\nf("\\\\") f(\'\\\\\') f("\\"") f(\'"\') f(\'\\\'\')\n', '#define f(a) a\n#define g f\n#define h g(\nh 1) h 2)\n',
     '#define AA BB\n#define BB AA\nAA BB\n', '#define AA BB\n#define BB CC\n#define CC AA\nAA BB CC AA\n', '#define f(a) a+1\n-f(-1) f(+)+ f(x)x\n',
     '#define f(a) (a)\n#define g(a) f(a)f(a)\ng(g(1))\n', '#define t(a) a\n#define f(a) [a]\nt(f) x\n', '#define t(a) a\n#define f(a) [a]\nt(f)(0)\n',
-    '#define t(a) a\n#define f(a) [a]\nt(t(f) )(0) t(f)\n', '#define t(a,b) b a\n#define f(a) [a]\nt(1,2 f) (3)\n', '#define f(a,b) b a\nf(f(1,2),f(3,4))\n', '#define c(a,b) a b\n#define l (\n#define r )\nc l 1,2 r\n',
+    '#define t(a) a\n#define f(a) [a]\nt(t(f) )(0) t(f)\n', '#define w 0,1\n#define f(a) [a]\n#define h f(\nh w) h (w)) h 1 w)\n',
+    '#define r )\n#define f(a) [a]\n#define h f(\nh (r) h (1)r\n', '#define f() x\nf()f() f()\n', '#define f(a) [a]\nf(((,))) f((()())) f(()())\n', '#define t(a,b) b a\n#define f(a) [a]\nt(1,2 f) (3)\n', '#define f(a,b) b a\nf(f(1,2),f(3,4))\n', '#define c(a,b) a b\n#define l (\n#define r )\nc l 1,2 r\n',
 ]
 
 DIRECTIVE_ADJACENT = [
@@ -788,6 +789,10 @@ def _cpp_job(recs):
     return [res[id(r)] for r in recs]
 
 
+REPLAY_CMD = ('$CPROC_QBE -E input.c > observed.txt 2> stderr.txt; st=$?; cat stderr.txt\n'
+              'd=$PWD; cd %s && python3 -m vlib.cppref "$d/input.c" $st "$d/observed.txt"' % build.VERIF)
+
+
 SANITY = [  # (source, expected observation of both R and cpp) — checks the witness plumbing itself
     ('#define A B\n#define B A\nA B\n', (('ident', 'A'), ('ident', 'B'))),
     ('#define f(a) [a]\nf(,)\n', 'reject'),
@@ -961,7 +966,7 @@ def main(chk):
         flag = {'tokens': '', 'E': '-E '}[r['mode']]
         chk.violation(key, '[%s/%s] %r: expected %s; observed %s' % (r['stratum'], r['mode'], r['src'], exp, got),
                       files={'input.c': r['src'].encode('latin-1'), 'expected.txt': (exp + '\n').encode('latin-1')},
-                      cmd='$CPROC_QBE -E input.c; echo "status=$? expected: %s"' % exp.replace('"', '\\"').replace('$', '\\$').replace('`', '\\`'),
+                      cmd=REPLAY_CMD,
                       detail='flags: %s\nGNU cpp agrees with the reference model.' % ', '.join(r['flags']))
     for cls, src in amb_samples.items():
         chk.notes.append('ambiguous (R and GNU cpp disagree, not judged): %s: %r' % (cls, src))
